@@ -165,7 +165,8 @@ def snapshot(x):
             x.charge,
             tuple(index_sig(ix) for ix in x.indices),
             tuple((sec, _blk_snap(b)) for sec, b in x.blocks.items()),
-            tuple(sorted(phases_of(x).items(), key=repr)),
+            # an explicitly stored +1 and a missing entry are the same sign state
+            tuple(sorted(((k, v) for k, v in phases_of(x).items() if v != 1), key=repr)),
             tuple(labels_of(x)),
         )
     if is_vector(x):
